@@ -85,8 +85,13 @@ def rule_decompose(ctx):
     CONJ = ("call", "Problem::conjectures", (SELF,))
     AX = ("call", "Problem::axioms", (SELF,))
 
+    def raw(b_):
+        e_ = sym.Eval(fx, inline_depth=0)
+        e_.stateful_map_as_loop = True
+        return sym.anon_format(ftpl.canon_iter(e_.function(b_)))
+
     def canon(b_):
-        return leaves.strip_acc(sym.anon_format(ftpl.canon_iter(sym.Eval(fx, inline_depth=0).function(b_))))
+        return leaves.strip_acc(raw(b_))
 
     def problem(formulas):
         return ("ctor", "Problem", (("formulas", formulas), ("interpretation", ("place", "self.interpretation")),
@@ -116,7 +121,7 @@ def rule_decompose(ctx):
             assigns = [x for x in sym.subterms(then) if isinstance(x, tuple) and x[:1] == ("upd",) and str(x[2]).startswith("assign-field:")]
             good = len(assigns) == 1 and assigns[0][2].endswith(".role") and assigns[0][3] == (("ctor", "Role::Axiom", ()),) and \
                 assigns[0][1] == ("proj", ("call", "slice::last_mut", (AX,)), (("Option::Some", "0"),))
-    carried = any(isinstance(x, tuple) and x[:1] == ("acc",) for x in sym.subterms(sym.anon_format(ftpl.canon_iter(sym.Eval(fx, inline_depth=0).function(seq)))))
+    carried = any(isinstance(x, tuple) and x[:1] == ("acc",) for x in sym.subterms(raw(seq)))
     ctx.add("TPL", "decompose:sequential-body", good and carried, ctx.site(seq),
             "sequential: the previous conjecture is re-labelled axiom, the next conjecture is appended to the running list (started from self.axioms()), the problem is a copy of the list so far: " + detail)
     # axioms()/conjectures() filter by role, preserving order
